@@ -18,7 +18,7 @@ use yuvxyb::*;
 pub const OPS: [&str; 10] = ["decode", "encode", "roundtrip", "to_linear", "to_gamma", "xyb", "xyb_back", "primaries", "yuv_xyb_yuv", "hsl"];
 
 /// the operation `op` (variant `v`) on the input of thread `i`; returns the bits of the result
-fn run_op(op: &str, v: u64, i: usize) -> Vec<u32> {
+pub fn run_op(op: &str, v: u64, i: usize) -> Vec<u32> {
     // threads 0..3 share one input and one configuration, the others have their own input; the configuration is
     // shared by all threads for even variants and differs per thread for odd ones
     let inp = if i < 4 { 0 } else { i as u32 };
